@@ -297,3 +297,5 @@ pub proof fn lemma_inverted_empty(ls: Map<Vec<u8>, Delta>, lo: Seq<u8>, hi: Seq<
         lemma_lex_asym(hi, lo);
     }
 }
+
+//@ canary merge_axioms axiom_vec_u8_cmp_lex(); axiom_vec_u8_key_laws(); let a = vec_of(seq![1u8]); let b = vec_of(seq![1u8, 0u8]); assert(lex_lt(seq![1u8], seq![1u8, 0u8])); lemma_lex_total(seq![1u8], seq![2u8]); lemma_inverted_empty(Map::<Vec<u8>, Delta>::empty(), seq![2u8], seq![1u8], Order::Ascending);
